@@ -95,6 +95,8 @@ structure ExtState where
   hypHook : Hook := .noop
   /-- every gas paymaster ever created, in creation order (the k-th one has internal id k: the no-op hook of the set-up is 0) -/
   hypIgps : List Hook := []
+  /-- bank `SendEnabled` switched off for a denomination (it governs `MsgSend` only: the internal route) -/
+  sendDisabled : String → Bool := fun _ => false
 
 structure World where
   orb : OrbState
